@@ -164,7 +164,7 @@ def main(chk: Check):
             modes[rng.randrange(len(modes))] = 9          # an unknown mode somewhere
         elif modes and r < 0.30:
             modes[rng.randrange(len(modes))] = 3          # process mode
-        jobs.append((c["n"], c["m"], modes, rng.choice([1, 2]), rng.choice([None, 2, 3]), rng.choice(["csv", "json", "dataframe"])))
+        jobs.append((c["n"], c["m"], modes, rng.choice([1, 2]), rng.choice([None, 1, 2, 3]), rng.choice(["csv", "json", "dataframe"])))
     (WORK / "tmp").mkdir(parents=True, exist_ok=True)
     with cf.ProcessPoolExecutor(12) as ex:
         records = list(ex.map(multi_case, jobs, chunksize=2))
